@@ -949,3 +949,4 @@ MANIFEST["text"] += ' Also: memoised helpers key their cache on every parameter 
 MANIFEST["text"] += ' R6 (peak pipeline): peak selection is an arg-maximum; the coarse refinement samples are the −1/0/+1 neighbours in this order, wrapped by a modulo whose first operand is base+offset; the 3×3 patch is [p−1, p+2) on both axes with the row index on axis 0; each coordinate adds the parabolic offset measured along its own axis; the upsampled estimate is coarse + (local peak − centre + δ)/up in both twins — all decided on rational normal forms, so algebraic re-spelling does not matter.'
 MANIFEST["text"] += " R7: the upsampled patch half-width 1.5·up is rounded with ceil in every routine that builds the patch or re-centres a peak in it (int / floor / round / // differ by one sample for odd factors)."
 MANIFEST["text"] += ' R5 skips private helpers nothing references.'
+MANIFEST["text"] += ' R1/R2 accept the equivalent spellings n//2 (provably odd patch) and the in-place product.'
